@@ -500,7 +500,17 @@ struct Driver {
             }
             else if (how < 9) {                            // hinted insert
                 trace.push_back("insert(hint," + show(v) + ")");
-                auto hint_t = rng.coin() ? t.begin() : (rng.coin() ? t.end() : t.lower_bound(key_of(v)));
+                // hints: wrong ones (begin, end, a random position) and right ones (the successor, the
+                // predecessor - also when it is the last entry of its leaf -, the end of the equal run)
+                auto hint_t = t.begin();
+                switch (rng.below(7)) {
+                case 0: break;
+                case 1: hint_t = t.end(); break;
+                case 2: hint_t = t.lower_bound(key_of(v)); break;
+                case 3: hint_t = t.upper_bound(key_of(v)); break;
+                case 4: case 5: hint_t = t.lower_bound(key_of(v)); if (hint_t != t.begin()) --hint_t; break;
+                default: { size_t steps = t.size() ? rng.below(t.size() + 1) : 0; if (steps > 40) steps = 40 + steps % 7; for (size_t q = 0; q < steps && hint_t != t.end(); ++q) ++hint_t; break; }
+                }
                 auto it = t.insert(hint_t, v);
                 if constexpr (!is_multi) {
                     auto rm = m.insert(v);
